@@ -902,6 +902,9 @@ def delete_pointless_statements(source: str, preserve: Collection[str] = frozens
         ast.ClassDef(name="_"),
     )
     for node in itertools.chain([ast_tree], parsing.iter_bodies_recursive(ast_tree)):
+        if isinstance(node, (ast.Try, getattr(ast, "TryStar", ast.Try))):
+            continue  # What a statement in a try raises is there to be caught: "try: unicode"
+
         for i, child in enumerate(node.body):
             if underscore_is_a_variable and any(core.walk(child, underscore_template)):
                 continue
